@@ -21,8 +21,10 @@ Line-protocol glue for C03.  Annotated trees (`DInfo`) are the trees of `DTypes.
       → {"model":"pass"|"bad","nested":b,"wf":b,"judge":[..]}
       (trees of a pair may carry "cls":"text" on a string node, "cls":"limits" | "status" on a tuple node: `CType`)
   {"k":"probe","di":T,"mode":"wire"|"py","cand":V}  → {"model":O}       (model outcome of import_value / validate)
-  {"k":"proxy","params":[{"name":s,"export":b,"readonly":b,"dt":T,"remote":null|{"dt":T,"readonly":b}},..]}
-      → {"model":[[name,[warning,..]],..]}                 (ProxyModule._check_descriptive_data, parameters)
+  {"k":"proxy","params":[{"name":s,"export":b,"readonly":b,"dt":T,"remote":null|{"dt":T,"readonly":b}},..],
+               "commands":[{"name":s,"dt":C,"remote":null|C},..]}         (C = {"arg":T|null,"res":T|null})
+      → {"model":{"params":[[name,[warning,..]],..],"commands":[[name,[warning,..]],..]}}   (ProxyModule._check_descriptive_data)
+  {"k":"cmdcompat","a":C,"b":C,"impl":{"verdict":…,"wa":[{"v":V,"acc":b},..],"wr":[..]}} → {"model":"pass"|"bad","nested":b,"judge":[..]}
   {"k":"writable","value":T,"target":T} → {"model":"ok"|"ConfigError"|"ProgrammingError"}   (Writable.__init__; the
       datatypes are those declared: the check sees their copies, `copyC`)
 -/
@@ -122,6 +124,14 @@ partial def skelToJson : Skel → Json
   | .tuple es => Json.mkObj [("tuple", jarr (es.map skelToJson))]
   | .limits m => Json.mkObj [("limits", skelToJson m)]
   | .struct ms => Json.mkObj [("struct", jarr (ms.map (fun (k, v) => jarr [.str k, skelToJson v])))]
+
+def cmdOfJson (j : Json) : R (CmdType Float) := do
+  let opt (key : String) : R (Option (CType Float)) := do
+    match j.getObjVal? key with
+    | .ok .null => pure none
+    | .ok t => some <$> ctypeOfJson t
+    | .error _ => pure none
+  return { argument := ← opt "arg", result := ← opt "res" }
 
 def errToJson : Err → Json
   | .other c => Json.mkObj [("other", .str c)]
@@ -251,7 +261,31 @@ def handle (j : Json) : R Json := do
         | .error _ => pure none
       let ws := proxyParam name (← fldBool p "export") (← fldBool p "readonly") dt remote
       return jarr [.str name, jstrs (ws.map ProxyWarning.name)])
-    return Json.mkObj [("model", jarr out)]
+    let cmds : List Json := match j.getObjVal? "commands" with
+      | .ok (.arr xs) => xs.toList
+      | _ => []
+    let cout ← cmds.mapM (fun c => do
+      let name ← fldStr c "name"
+      let dt ← cmdOfJson (← fld c "dt")
+      let remote : Option (CmdType Float) ← match c.getObjVal? "remote" with
+        | .ok .null => pure none
+        | .ok r => do pure (some (← cmdOfJson r))
+        | .error _ => pure none
+      return jarr [.str name, jstrs ((proxyCommand dt remote).map ProxyCmdWarning.name)])
+    return Json.mkObj [("model", Json.mkObj [("params", jarr out), ("commands", jarr cout)])]
+  | "cmdcompat" =>
+    let a ← cmdOfJson (← fld j "a")
+    let b ← cmdOfJson (← fld j "b")
+    let impl ← fld j "impl"
+    let verdict ← verdictOfJson (← fld impl "verdict")
+    let wits (key : String) : R (List (Witness Float)) := do
+      (← fldArr impl key).mapM (fun w => do
+        return ({ value := ← pvalOfJson (← fld w "v"), accepted := ← fldBool w "acc" } : Witness Float))
+    let m : Json := match compatibleCmd a b with
+      | .ok _ => .str "pass"
+      | .error e => errToJson e
+    return Json.mkObj [("model", m), ("nested", .bool (decide (NestedCmd a b))),
+      ("judge", jstrs (judgeCmd a b verdict (← wits "wa") (← wits "wr")))]
   | "writable" =>
     let v ← ctypeOfJson (← fld j "value")
     let t ← ctypeOfJson (← fld j "target")
